@@ -118,7 +118,7 @@ class CacheBlocks(SubCheck):
     fanout = False
 
     def examples(self, tier):
-        return 120 if tier == 'quick' else 4000
+        return 80 if tier == 'quick' else 4000
 
     def strategy(self, tier):
         fan = self.fanout
@@ -133,6 +133,9 @@ class CacheBlocks(SubCheck):
                 'pre': draw(st.lists(block_ops(threshold, fan), max_size=6)),
                 'tree': draw(tree_strategy(threshold, fan)),
                 'post': draw(st.lists(block_ops(threshold, fan), max_size=3)),
+                # an asynchronous exception (Ctrl-C) delivered just as the ROLLBACK statement of the aborting block returns
+                'interrupt_after_rollback': draw(st.integers(0, 4)) == 0,
+                'tree2': draw(tree_strategy(threshold, fan)),
             }
 
         return case()
@@ -177,11 +180,40 @@ class CacheBlocks(SubCheck):
                             if not node[2]:
                                 raise
 
+            interrupt = bool(case.get('interrupt_after_rollback')) and not self.fanout
+            if interrupt:
+                from ..conc import get_seams
+                from ..seams import Controller
+                import sqlite3 as _sq
+
+                seams = get_seams(env)
+                seams.clock.adv = clock.adv if hasattr(clock, 'adv') else 0.0
+
+                class InterruptAfterRollback(Controller):
+                    fired = False
+
+                    def event(self_, kind, label, con=None):
+                        if kind == 'sql' and label.strip().upper().startswith('ROLLBACK') and not self_.fired and con is not None:
+                            self_.fired = True
+                            _sq.Connection.execute(con, 'ROLLBACK')  # the statement completes ...
+                            raise BoomBase()  # ... and the interrupt is delivered as it returns
+
+                ctl = InterruptAfterRollback()
+                seams.ctl = ctl
             try:
-                with cache.transact(retry=True):
-                    run_nodes(case['tree'])
-            except BOOMS:
-                aborted = True
+                try:
+                    with cache.transact(retry=True):
+                        run_nodes(case['tree'])
+                except BOOMS:
+                    aborted = True
+                except Exception as exc:
+                    if not interrupt:
+                        raise
+                    # the code issued ROLLBACK a second time after our completed one: tolerated, the block is aborted
+                    aborted = True
+            finally:
+                if interrupt:
+                    seams.ctl = Controller()
             if aborted:
                 r.m = saved
                 # statistics are Settings rows of the same database: they roll back with the block
@@ -196,7 +228,9 @@ class CacheBlocks(SubCheck):
                 raise
             dirs = [path] if not self.fanout else [path + '/%03d' % i for i in range(case['shards'])]
             for d in dirs:
-                probs = Snapshot(d).problems()
+                # with the injected interrupt the library's own clean-up after ROLLBACK is cut short (an asynchronous
+                # exception inside library code is outside the property); unreferenced files are then tolerated
+                probs = Snapshot(d).problems(allow_orphans=interrupt)
                 if probs:
                     kind = probs[0][0]
                     raise Violation(
@@ -205,6 +239,27 @@ class CacheBlocks(SubCheck):
                     )
             r.run(case['post'])
             r.scan()
+            if case.get('tree2') is not None:
+                # a later block on the same object and thread is still a real transaction
+                saved2 = copy.deepcopy(r.m)
+                hits2 = (r.m.hits, r.m.misses)
+                aborted2 = False
+                try:
+                    with cache.transact(retry=True):
+                        run_nodes(case['tree2'])
+                except BOOMS:
+                    aborted2 = True
+                if aborted2:
+                    r.m = saved2
+                    r.m.hits, r.m.misses = hits2
+                    r.trace.append(('<< second block raised: rolled back >>',))
+                try:
+                    r.scan()
+                    r.step(('stats', cfg['statistics'], False))
+                except Violation as v:
+                    if aborted2:
+                        raise Violation('C06/abort-not-restored/second-block/' + v.signature.split('/', 1)[1], 'a later block on the same object raised, but its effects stayed:\n' + v.detail)
+                    raise
             nontrivial = aborted and state['wrote'] >= 1
             classes = ['aborted' if aborted else 'committed'] + sorted(r.classes)
             return {'nontrivial': nontrivial, 'classes': classes}
@@ -221,7 +276,7 @@ class FanoutBlocks(CacheBlocks):
     fanout = True
 
     def examples(self, tier):
-        return 60 if tier == 'quick' else 2000
+        return 40 if tier == 'quick' else 2000
 
 
 # ---------------------------------------------------------------------------------------------
@@ -265,7 +320,7 @@ class PersistentBlocks(SubCheck):
     name = 'index_deque_blocks'
 
     def examples(self, tier):
-        return 100 if tier == 'quick' else 3000
+        return 80 if tier == 'quick' else 3000
 
     def strategy(self, tier):
         @st.composite
@@ -452,7 +507,7 @@ class ConcurrentBlocks(SubCheck):
     name = 'concurrent_blocks'
 
     def examples(self, tier):
-        return 200 if tier == 'quick' else 8000
+        return 150 if tier == 'quick' else 8000
 
     def strategy(self, tier):
         return conc_case()
@@ -479,7 +534,7 @@ class ConcurrentBlocks(SubCheck):
         scans = [c for c in calls if c.op[0] == 'list']
         lin = [c for c in calls if c.op[0] != 'list']
         for c in lin:
-            if c.result[0] == 'exc' and c.result[1] not in ('KeyError',):
+            if c.result[0] == 'exc' and c.result[1] not in ('KeyError',) and c.op[0] != 'setbad':
                 raise Violation('C06/concurrent/unexpected-exception/%s' % c.result[1], 'call %r\n%s' % (c, fmt(calls)))
         block = [c for c in lin if c.op[0] == 'block'][0]
 
@@ -541,7 +596,7 @@ class ProcessBlocks(ConcurrentBlocks):
         init_state = c05.init_state_of(case['init'])
         lin = [c for c in calls if c.op[0] != 'list']
         for c in lin:
-            if c.result[0] == 'exc' and c.result[1] not in ('KeyError',):
+            if c.result[0] == 'exc' and c.result[1] not in ('KeyError',) and c.op[0] != 'setbad':
                 raise Violation('C06/concurrent/unexpected-exception/%s' % c.result[1], 'call %r\n%s' % (c, fmt(calls)))
         block = [c for c in lin if c.op[0] == 'block'][0]
 
